@@ -120,6 +120,10 @@ def c01(rep, tier, seed):
     suite_heap.gen(rep, tier, "tables", cl)
     suite_heap.gen(rep, tier, "tables2", cl)
     suite_heap.trace(rep, tier, seed, cl)
+    # a table assignment refused with AliasError (one addressed column shares its storage) changes nothing;
+    # table-level operations never change their operands
+    suite_table.gen(rep, tier, ["tassign"] + ([] if tier == "quick" else ["select", "arith"]), ("refused_changes_nothing", "operands_unchanged"))
+    suite_table.enumerated(rep, "struct", ("operands_unchanged",))
 
 
 def c02(rep, tier, seed):
